@@ -6,6 +6,8 @@ import (
 	"sort"
 
 	"pgregory.net/rapid"
+
+	"verif/internal/harness"
 )
 
 // ValCase is one configuration set plus the record of how it was derived from a well-formed one.
@@ -17,9 +19,24 @@ type ValCase struct {
 	BackendsAbsent bool // multi: backends sub-message absent
 	Edits          []Edit
 	Multiline      bool // text form layout
+	// Verbosity is the process-wide klog -v level while the configuration is validated (0 = default).
+	Verbosity int
+	// Bulk, when set, pads one log with a long (unchecked) roots_pem_file path so that the serialised
+	// configuration has a chosen size around a power of two.
+	Bulk *Bulk
 	// Twin is the well-formed configuration as it was just before the invalidating edits (nil when
 	// there are none): it is validated between two presentations of the broken configuration.
 	Twin *Twin
+}
+
+// Bulk: pad log Log so that, in binary form, either the whole file ("file") or the encoding up to and
+// including that log's entry ("entry"; only meaningful for a LogConfigSet, whose entries are top-level)
+// is exactly Target+Delta octets long. Applied at check time, when the encoded sizes are known.
+type Bulk struct {
+	Log    int
+	Mode   string
+	Target int
+	Delta  int
 }
 
 // Twin is the well-formed state a broken configuration was derived from.
@@ -583,6 +600,24 @@ func genVal(t *rapid.T) ValCase {
 			// reorders first only (later edits record indices)
 			return k == 0 || e.name != "reorder-logs"
 		}, "valid-edit")
+	}
+	c.Verbosity = rapid.SampledFrom([]int{0, 0, 0, 1, 1, 2, 3}).Draw(t, "klog-v")
+	bulkOdds := 39
+	if harness.Thorough() {
+		bulkOdds = 19
+	}
+	if rapid.IntRange(0, bulkOdds).Draw(t, "bulk") == 0 {
+		targets := []int{1 << 16, 1 << 20, 1 << 20, 1 << 20}
+		if harness.Thorough() {
+			targets = append(targets, 1<<22, 1<<24)
+		}
+		c.Bulk = &Bulk{
+			Log:    rapid.IntRange(0, len(c.Logs)-1).Draw(t, "bulk-log"),
+			Mode:   rapid.SampledFrom([]string{"file", "entry", "entry"}).Draw(t, "bulk-mode"),
+			Target: rapid.SampledFrom(targets).Draw(t, "bulk-target"),
+			Delta:  rapid.SampledFrom([]int{0, 0, 0, 1, -1, 2, -2, 100, -100, 5000}).Draw(t, "bulk-delta"),
+		}
+		c.record("bulk-padding", "valid", "", c.Bulk.Log)
 	}
 	ni := rapid.SampledFrom([]int{0, 0, 0, 0, 1, 1, 1, 1, 2, 2}).Draw(t, "ninvalid")
 	if ni > 0 {
